@@ -1,8 +1,9 @@
 (* C03 (glitch freedom) at the level of EngineScript.estep: a transaction over a well-formed ranked
    graph computes, for every node, the denotation `den` (a function of the graph's dependency
-   structure and of the fired sources only), runs every update at most once and after the updates of
-   its dependencies, and returns the graph to rest.  Hence the result does not depend on the order
-   in which the sources were sent, nor on the registration order inside any dependents list.
+   structure, of its demands and of the fired sources only), runs every update at most once and after
+   the updates of its static dependencies and of the nodes it demands, and returns the graph to rest.
+   Hence the result does not depend on the order in which the sources were sent, nor on the
+   registration order inside any dependents list.
    The original algorithm (orig = true) is refuted on a concrete six-node graph. *)
 From Coq Require Import List Arith Lia Bool Permutation.
 Import ListNotations.
@@ -33,7 +34,7 @@ Proof.
 Qed.
 
 Lemma get_default (gr : graph Val) n : length gr <= n ->
-  get gr n = {| deps := []; dependents := []; visited := true; done := true; changed := false; fire := None |}.
+  get gr n = {| deps := []; dem := []; dependents := []; visited := true; done := true; changed := false; fire := None |}.
 Proof. intros H. unfold get. apply nth_overflow. exact H. Qed.
 
 Lemma get_app_l (gr : graph Val) l n : n < length gr -> get (gr ++ l) n = get gr n.
@@ -42,29 +43,26 @@ Proof. intros H. unfold get. apply app_nth1. exact H. Qed.
 Lemma get_app_new (gr : graph Val) x : get (gr ++ [x]) (length gr) = x.
 Proof. unfold get. rewrite app_nth2 by lia. rewrite Nat.sub_diag. reflexivity. Qed.
 
-Lemma existsb_map {A B} (f : A -> B) (p : B -> bool) l : existsb p (map f l) = existsb (fun x => p (f x)) l.
-Proof. induction l as [|x l IH]; simpl; auto. rewrite IH. reflexivity. Qed.
-
 (* ---------------- well-formed graphs ---------------- *)
 Definition rest (x : node Val) := visited x = false /\ done x = false /\ changed x = false /\ fire x = None.
 Definition at_rest (gr : graph Val) := forall n, n < length gr -> rest (get gr n).
 Definition deps_in_range (gr : graph Val) := forall n d, In d (deps (get gr n)) -> d < length gr.
+Definition dem_in_range (gr : graph Val) := forall n d, In d (dem (get gr n)) -> d < length gr.
 Definition dependents_in_range (gr : graph Val) := forall n m, In m (dependents (get gr n)) -> m < length gr.
-(* every dependency edge is registered in the dependents list of its target *)
+(* every static dependency edge is registered in the dependents list of its target *)
 Definition complete (gr : graph Val) := forall n d, In d (deps (get gr n)) -> In n (dependents (get gr d)).
-Definition wf (gr : graph Val) := at_rest gr /\ deps_in_range gr /\ dependents_in_range gr /\ complete gr.
-(* acyclic, as witnessed by a rank function (which may as well be bounded by the number of nodes) *)
+Definition wf (gr : graph Val) := at_rest gr /\ deps_in_range gr /\ dem_in_range gr /\ dependents_in_range gr /\ complete gr.
+(* the potential graph (static dependencies and potential demand targets) is acyclic, as witnessed by a
+   rank function (which may as well be bounded by the number of nodes) *)
+Definition pot (gr : graph Val) (n : nat) : list nat := deps (get gr n) ++ dem (get gr n).
 Definition ranked (gr : graph Val) :=
-  exists rank : nat -> nat, forall n d, In d (deps (get gr n)) -> rank d < rank n.
-Definition ranked_b (gr : graph Val) :=
-  exists rank : nat -> nat, (forall n d, In d (deps (get gr n)) -> rank d < rank n) /\
-                            (forall n, n < length gr -> rank n < length gr).
+  exists rank : nat -> nat, forall n d, In d (pot gr n) -> rank d < rank n.
 (* a firing list: distinct source nodes with their values *)
 Definition sources (gr : graph Val) (fs : list (nat * Val)) :=
   NoDup (map fst fs) /\ forall n v, In (n, v) fs -> n < length gr /\ deps (get gr n) = [].
 
 Definition cln (x : node Val) : node Val :=
-  {| deps := deps x; dependents := dependents x; visited := false; done := false; changed := false; fire := None |}.
+  {| deps := deps x; dem := dem x; dependents := dependents x; visited := false; done := false; changed := false; fire := None |}.
 
 Lemma get_cleanup (gr : graph Val) n : n < length gr -> get (cleanup gr) n = cln (get gr n).
 Proof.
@@ -84,14 +82,17 @@ Qed.
 Definition lookup (fs : list (nat * Val)) (n : nat) : option Val :=
   match find (fun nv => Nat.eqb (fst nv) n) fs with Some nv => Some (snd nv) | None => None end.
 
-Fixpoint denf (F : rule Val) (fuel : nat) (gr : graph Val) (fs : list (nat * Val)) (n : nat) : option Val :=
+(* a fired source yields its value; a derived node yields its rule applied to the denotations of its
+   static dependencies and of the nodes it demands given these, iff one of all these fires *)
+Fixpoint denf (F : rule Val) (Dm : demand Val) (fuel : nat) (gr : graph Val) (fs : list (nat * Val)) (n : nat) : option Val :=
   match fuel with 0 => None | S f =>
     match deps (get gr n) with
     | [] => lookup fs n
-    | ds => let ins := map (denf F f gr fs) ds in if existsb is_some ins then F n ins else None
+    | ds => let ins := map (denf F Dm f gr fs) ds in
+            let ex := Dm n ins in
+            if existsb is_some (map (denf F Dm f gr fs) (ds ++ ex)) then F n ins (map (denf F Dm f gr fs) ex) else None
     end
   end.
-
 
 Lemma lookup_cons m v fs n : lookup ((m, v) :: fs) n = if Nat.eqb m n then Some v else lookup fs n.
 Proof. unfold lookup. simpl. destruct (Nat.eqb m n); reflexivity. Qed.
@@ -130,30 +131,38 @@ Proof.
     rewrite (lookup_in _ _ _ ND E') in E. discriminate.
 Qed.
 
-(* the denotation reads nothing but the dependency lists *)
-Lemma denf_deps_only (F : rule Val) f (gr gr' : graph Val) (fs fs' : list (nat * Val)) :
-  (forall n, deps (get gr' n) = deps (get gr n)) -> (forall n, lookup fs' n = lookup fs n) ->
-  forall n, denf F f gr' fs' n = denf F f gr fs n.
+(* the denotation reads nothing but the dependency lists and the demand function *)
+Lemma denf_deps_only (F : rule Val) (Dm Dm' : demand Val) f (gr gr' : graph Val) (fs fs' : list (nat * Val)) :
+  (forall n, deps (get gr' n) = deps (get gr n)) -> (forall n ins, Dm' n ins = Dm n ins) ->
+  (forall n, lookup fs' n = lookup fs n) ->
+  forall n, denf F Dm' f gr' fs' n = denf F Dm f gr fs n.
 Proof.
-  intros HD HL. induction f as [|f IH]; intros n; cbn [denf]; auto.
+  intros HD HM HL. induction f as [|f IH]; intros n; cbn [denf]; auto.
   rewrite HD. destruct (deps (get gr n)) as [|d0 ds]; [apply HL|].
-  cbv zeta. rewrite (map_ext _ _ IH). reflexivity.
+  cbv zeta. rewrite (map_ext _ _ IH), HM. rewrite (map_ext _ _ IH). rewrite (map_ext _ _ IH). reflexivity.
 Qed.
 
-Lemma denf_stable (F : rule Val) (gr : graph Val) (fs : list (nat * Val)) (rank : nat -> nat) :
-  (forall n d, In d (deps (get gr n)) -> rank d < rank n) ->
-  forall f1 f2 n, rank n < f1 -> rank n < f2 -> denf F f1 gr fs n = denf F f2 gr fs n.
+(* with demands that are statically within the ranked potential demands, the denotation does not depend
+   on the fuel once it exceeds the rank *)
+Lemma denf_stable (F : rule Val) (Dm : demand Val) (gr : graph Val) (fs : list (nat * Val))
+      (Dem : nat -> list nat) (rank : nat -> nat) :
+  (forall n d, In d (deps (get gr n) ++ Dem n) -> rank d < rank n) ->
+  (forall n ins, incl (Dm n ins) (Dem n)) ->
+  forall f1 f2 n, rank n < f1 -> rank n < f2 -> denf F Dm f1 gr fs n = denf F Dm f2 gr fs n.
 Proof.
-  intros RK. induction f1 as [|f1 IH]; intros f2 n H1 H2; [lia|]. destruct f2 as [|f2]; [lia|]. cbn [denf].
+  intros RK Sub. induction f1 as [|f1 IH]; intros f2 n H1 H2; [lia|]. destruct f2 as [|f2]; [lia|]. cbn [denf].
   destruct (deps (get gr n)) as [|d0 ds] eqn:Dn; auto. cbv zeta.
-  assert (E : map (denf F f1 gr fs) (d0 :: ds) = map (denf F f2 gr fs) (d0 :: ds)).
-  { apply map_ext_in. intros d Hd. rewrite <- Dn in Hd. apply RK in Hd. apply IH; lia. }
-  rewrite E. reflexivity.
+  assert (E : map (denf F Dm f1 gr fs) (d0 :: ds) = map (denf F Dm f2 gr fs) (d0 :: ds)).
+  { apply map_ext_in. intros d Hd. rewrite <- Dn in Hd. assert (rank d < rank n) by (apply RK; apply in_or_app; auto). apply IH; lia. }
+  rewrite E.
+  assert (E2 : forall l, incl l (Dem n) -> map (denf F Dm f1 gr fs) l = map (denf F Dm f2 gr fs) l).
+  { intros l Hl. apply map_ext_in. intros d Hd. assert (rank d < rank n) by (apply RK; apply in_or_app; right; apply Hl; exact Hd). apply IH; lia. }
+  rewrite (E2 _ (Sub n _)). rewrite !map_app, E, (E2 _ (Sub n _)). reflexivity.
 Qed.
 
 (* ---------------- one transaction ---------------- *)
 Definition fired (x : node Val) (v : Val) : node Val :=
-  {| deps := deps x; dependents := dependents x; visited := visited x; done := done x; changed := true; fire := Some v |}.
+  {| deps := deps x; dem := dem x; dependents := dependents x; visited := visited x; done := done x; changed := true; fire := Some v |}.
 Definition fire_all (fs : list (nat * Val)) (gr : graph Val) : graph Val :=
   fold_left (fun g nv => fire_source g (fst nv) (snd nv)) fs gr.
 
@@ -180,20 +189,95 @@ Qed.
 Definition Dof (gr : graph Val) (n : nat) : list nat := deps (get gr n).
 Definition Dtsof (gr : graph Val) (n : nat) : list nat := dependents (get gr n).
 
-Lemma cln_rest (x y : node Val) : rest y -> deps x = deps y -> dependents x = dependents y -> cln x = y.
+Lemma cln_rest (x y : node Val) : rest y -> deps x = deps y -> dem x = dem y -> dependents x = dependents y -> cln x = y.
 Proof.
-  intros (A & B & C & E) H1 H2. unfold cln. rewrite H1, H2. destruct y; simpl in *; subst. reflexivity.
+  intros (A & B & C & E) H1 H2 H3. unfold cln. rewrite H1, H2, H3. destruct y; simpl in *; subst. reflexivity.
 Qed.
 
+(* the engine never touches the static data of a node *)
+Lemma dem_set_eq (gr : graph Val) n x m : dem x = dem (get gr n) -> dem (get (set gr n x) m) = dem (get gr m).
+Proof.
+  intros H. destruct (Nat.eq_dec n m) as [->|Ne]; [|rewrite get_set_other; auto].
+  destruct (lt_dec m (length gr)) as [Lt|Ge]; [rewrite get_set_same; auto|].
+  rewrite set_out by lia. reflexivity.
+Qed.
+
+Section Dem.
+  Variable F : rule Val.
+  Variable Dm : demand Val.
+  Variable orig : bool.
+
+  Lemma mark_dem (s : st Val) n v d m : dem (get (g (mark s n v d)) m) = dem (get (g s) m).
+  Proof. unfold mark; cbn [g]. apply dem_set_eq. reflexivity. Qed.
+
+  Lemma run_update_dem (s : st Val) n ex m : dem (get (g (run_update F s n ex)) m) = dem (get (g s) m).
+  Proof. unfold run_update; cbn [g]. apply dem_set_eq. reflexivity. Qed.
+
+  Lemma update_node_dem : forall fuel s n b s',
+    update_node F Dm orig fuel s n b = Some s' -> forall m, dem (get (g s') m) = dem (get (g s) m).
+  Proof.
+    induction fuel as [|f IH]; intros s n b s' E m; [discriminate|].
+    cbn [update_node] in E. destruct (visited (get (g s) n)); [injection E as <-; reflexivity|]. cbv zeta in E.
+    pose (P := fun (a0 a : st Val) => forall k, dem (get (g a) k) = dem (get (g a0) k)).
+    assert (Fold : forall l a0 r,
+              fold_left (fun acc d => match acc with None => None | Some a =>
+                  if visited (get (g a) d) then Some a else update_node F Dm orig f a d true end) l (Some a0) = Some r -> P a0 r).
+    { intros l a0 r Er.
+      apply (fold_opt_inv (P a0) (fun a d => if visited (get (g a) d) then Some a else update_node F Dm orig f a d true) l a0 r); auto.
+      - intros k; reflexivity.
+      - intros a d a' _ Pa Ea k. destruct (visited (get (g a) d)); [injection Ea as <-; apply Pa|].
+        rewrite (IH a d true a' Ea). apply Pa. }
+    match type of E with match ?T with _ => _ end = _ => destruct T as [s2|] eqn:EB end; [|discriminate].
+    match type of E with match ?T with _ => _ end = _ => destruct T as [s2'|] eqn:EB' end; [|discriminate].
+    pose proof (Fold _ _ _ EB) as P2. pose proof (Fold _ _ _ EB') as P2'.
+    remember (Dm n (fires_of (g s2) (deps (get (g s) n)))) as ex eqn:Hex.
+    remember (if existsb (fun d => changed (get (g s2') d)) (deps (get (g s) n) ++ ex) then run_update F s2' n ex else s2') as s3 eqn:Hs3.
+    remember (mark s3 n true true) as s4 eqn:Hs4.
+    assert (P4 : forall k, dem (get (g s4) k) = dem (get (g s) k)).
+    { intros k. rewrite Hs4, mark_dem, Hs3.
+      destruct (existsb _ _); [rewrite run_update_dem|]; rewrite P2', P2, mark_dem; reflexivity. }
+    destruct (changed (get (g s4) n)); [|injection E as <-; apply P4].
+    destruct (b && negb orig); [injection E as <-; apply P4|].
+    rewrite <- P4.
+    apply (fold_opt_inv (fun a => forall k, dem (get (g a) k) = dem (get (g s4) k))
+             (fun a x => update_node F Dm orig f a x false) (dependents (get (g s4) n)) s4 s'); auto.
+    intros a x a' _ Pa Ea k. rewrite (IH a x false a' Ea). apply Pa.
+  Qed.
+
+  Lemma drain_dem : forall rounds fuel s s',
+    drain F Dm orig rounds fuel s = Some s' -> forall m, dem (get (g s') m) = dem (get (g s) m).
+  Proof.
+    induction rounds as [|r IH]; intros fuel s s' E m; [discriminate|].
+    cbn [drain] in E. destruct (queue s) as [|q0 qs] eqn:Q; [injection E as <-; reflexivity|]. rewrite <- Q in E.
+    match type of E with match ?T with _ => _ end = _ => destruct T as [s1|] eqn:EF end; [|discriminate].
+    rewrite (IH fuel s1 s' E).
+    apply (fold_opt_inv (fun a => forall k, dem (get (g a) k) = dem (get (g s) k))
+             (fun a x => update_node F Dm orig fuel a x false) (queue s) {| g := g s; queue := []; log := log s |} s1); auto.
+    intros a x a' _ Pa Ea k. rewrite (update_node_dem fuel a x false a' Ea). apply Pa.
+  Qed.
+End Dem.
+
+(* ONE TRANSACTION, for any rule, any demand function and ANY SOLUTION `den` of the equations of the graph
+   over the fired sources whose demands lie within a ranked set of potential demands `Dem` (the `dem`
+   fields of the nodes, or any other over-approximation of the demands at the solution) *)
 Section Txn.
   Variable F : rule Val.
+  Variable Dm : demand Val.
   Variable gr : graph Val.
   Variable fs : list (nat * Val).
+  Variable Dem : nat -> list nat.
   Variable rank : nat -> nat.
+  Variable den : nat -> option Val.
   Hypothesis Hwf : wf gr.
-  Hypothesis rank_ok : forall n d, In d (deps (get gr n)) -> rank d < rank n.
-  Hypothesis rank_bound : forall n, n < length gr -> rank n < length gr.
+  Hypothesis rank_ok : forall n d, In d (deps (get gr n) ++ Dem n) -> rank d < rank n.
+  Hypothesis Dem_range : forall n d, In d (Dem n) -> d < length gr.
   Hypothesis Hsrc : sources gr fs.
+  Hypothesis den_src : forall n, n < length gr -> deps (get gr n) = [] -> den n = lookup fs n.
+  Hypothesis den_eq : forall n, n < length gr -> deps (get gr n) <> [] ->
+    den n = (if existsb is_some (map den (deps (get gr n) ++ Dm n (map den (deps (get gr n)))))
+             then F n (map den (deps (get gr n))) (map den (Dm n (map den (deps (get gr n))))) else None).
+  Hypothesis Dm_den : forall n, n < length gr -> incl (Dm n (map den (deps (get gr n)))) (Dem n).
+  Hypothesis Dm_quiet : forall n ins, existsb is_some ins = false -> Dm n ins = [].
 
   Local Notation N := (length gr).
   Local Notation gr1 := (fire_all fs gr).
@@ -202,11 +286,9 @@ Section Txn.
   Lemma txn_D_range : forall n d, In d (Dof gr n) -> d < N.
   Proof. destruct Hwf as (_ & A & _). exact A. Qed.
   Lemma txn_Dts_range : forall n d, In d (Dtsof gr n) -> d < N.
-  Proof. destruct Hwf as (_ & _ & A & _). exact A. Qed.
+  Proof. destruct Hwf as (_ & _ & _ & A & _). exact A. Qed.
   Lemma txn_Dts_complete : forall n d, n < N -> In d (Dof gr n) -> In n (Dtsof gr d).
-  Proof. destruct Hwf as (_ & _ & _ & A). intros n d _. apply A. Qed.
-  Lemma txn_rank_ok : forall n d, In d (Dof gr n) -> rank d < rank n.
-  Proof. exact rank_ok. Qed.
+  Proof. destruct Hwf as (_ & _ & _ & _ & A). intros n d _. apply A. Qed.
 
   Lemma src_range : forall n v, In (n, v) fs -> n < N.
   Proof. intros n v H. apply (proj2 Hsrc n v H). Qed.
@@ -229,9 +311,12 @@ Section Txn.
     rewrite gr1_get. destruct (lookup fs n); simpl; auto 10.
   Qed.
 
-  Lemma init_good : Good F (Dof gr) (Dtsof gr) N init_st.
+  Lemma gr1_dem n : dem (get gr1 n) = dem (get gr n).
+  Proof. rewrite gr1_get. destruct (lookup fs n); reflexivity. Qed.
+
+  Lemma init_good : Good F Dm (Dof gr) (Dtsof gr) N den init_st.
   Proof.
-    unfold Good, NoPend, Cov, SrcQ, CovAt, pend, init_st; simpl. split; [|split; [|split; [|split]]].
+    unfold Good, NoPend, Cov, SrcQ, CovAt, SrcOK, pend, init_st; simpl. split; [|split; [|split; [|split; [|split]]]].
     - split; [apply gr1_length|]. intros n Hn. destruct (gr1_flags n Hn) as (_ & _ & A & B & _). auto.
     - split.
       + intros n Hn Dn. destruct (gr1_flags n Hn) as (_ & B & _). congruence.
@@ -243,86 +328,74 @@ Section Txn.
     - intros k Hk Ck _. destruct (gr1_flags k Hk) as (_ & _ & _ & _ & _ & B). rewrite B in Ck.
       destruct (lookup fs k) as [v|] eqn:E; [|discriminate].
       apply lookup_some in E. apply in_map_iff. exists (k, v); auto.
+    - intros n Hn Dn. destruct (gr1_flags n Hn) as (_ & _ & _ & _ & A & B).
+      rewrite A, B, (den_src n Hn Dn). auto.
   Qed.
 
-  (* a fixpoint over the fired sources is the denotation *)
-  Lemma fixpoint_is_den (gr' : graph Val) :
-    Fixpoint_ok F (Dof gr) N gr' ->
-    (forall n, n < N -> Dof gr n = [] -> fire (get gr' n) = lookup fs n /\ changed (get gr' n) = is_some (lookup fs n)) ->
-    forall n, n < N ->
-      fire (get gr' n) = denf F (S N) gr fs n /\ changed (get gr' n) = is_some (denf F (S N) gr fs n).
-  Proof.
-    intros Fx Src n. remember (rank n) as r eqn:Hr. revert n Hr.
-    induction r as [r IHr] using lt_wf_ind. intros n Hr Hn.
-    cbn [denf]. destruct (deps (get gr n)) as [|d0 ds] eqn:Dn; [apply Src; auto|]. cbv zeta.
-    assert (NE : Dof gr n <> []) by (unfold Dof; rewrite Dn; discriminate).
-    destruct (Fx n Hn NE) as [A B]. unfold Dof in A at 1 2. rewrite Dn in A.
-    assert (Eq : forall d, In d (d0 :: ds) ->
-               fire (get gr' d) = denf F N gr fs d /\ changed (get gr' d) = is_some (denf F N gr fs d)).
-    { intros d Hd. rewrite <- Dn in Hd. pose proof (txn_D_range n d Hd) as HdN. pose proof (rank_ok n d Hd) as Rd.
-      rewrite (denf_stable F gr fs rank rank_ok N (S N) d) by (pose proof (rank_bound d HdN); lia).
-      apply (IHr (rank d)); auto. lia. }
-    assert (E1 : existsb (fun d => changed (get gr' d)) (d0 :: ds) = existsb is_some (map (denf F N gr fs) (d0 :: ds))).
-    { rewrite existsb_map. apply existsb_ext_in. intros d Hd. apply Eq; auto. }
-    assert (E2 : map (fun d => fire (get gr' d)) (d0 :: ds) = map (denf F N gr fs) (d0 :: ds)).
-    { apply map_ext_in. intros d Hd. apply Eq; auto. }
-    rewrite E1, E2 in A. split; [exact A|]. rewrite B, A. reflexivity.
-  Qed.
+  (* the nodes n demands in this transaction *)
+  Definition demanded (n : nat) : list nat := Dm n (map den (Dof gr n)).
 
-  (* the whole transaction, for any rule *)
+  (* the whole transaction *)
   Lemma txn_run :
-    exists s', drain F false (S (S N)) (S (S (N + N))) init_st = Some s' /\
+    exists s', drain F Dm false (S (S N)) (S (S (N + N))) init_st = Some s' /\
       cleanup (g s') = gr /\
-      map fire (g s') = map (denf F (S N) gr fs) (seq 0 N) /\
+      map fire (g s') = map den (seq 0 N) /\
       NoDup (rev (log s')) /\
       (forall n, In n (rev (log s')) <->
-                 (n < N /\ Dof gr n <> [] /\ exists d, In d (Dof gr n) /\ denf F (S N) gr fs d <> None)) /\
-      Settled (Dof gr) (rev (log s')).
+                 (n < N /\ Dof gr n <> [] /\ exists d, In d (Dof gr n ++ demanded n) /\ den d <> None)) /\
+      (forall l1 n l2, rev (log s') = l1 ++ n :: l2 -> forall d, In d (Dof gr n ++ demanded n) -> ~ In d l2).
   Proof.
     pose proof init_good as Gd.
     assert (L0 : length (g init_st) = N) by apply gr1_length.
-    destruct (drain F false (S (S N)) (S (S (N + N))) init_st) as [s'|] eqn:E.
+    destruct (drain F Dm false (S (S N)) (S (S (N + N))) init_st) as [s'|] eqn:E.
     2:{ exfalso. revert E. apply drain_fuel; pose proof (unvis_le_length (g init_st)); lia. }
     exists s'. split; auto.
-    destruct (drain_good F (Dof gr) (Dtsof gr) rank N txn_rank_ok txn_D_range txn_Dts_range _ _ _ _ Gd E) as ((Sh' & _) & _ & _).
-    destruct (drain_fixpoint F (Dof gr) (Dtsof gr) rank N txn_rank_ok txn_D_range txn_Dts_range txn_Dts_complete _ _ _ _ Gd E) as [Fx Src].
+    destruct (drain_good F Dm (Dof gr) Dem (Dtsof gr) rank N den rank_ok txn_D_range Dem_range txn_Dts_range den_eq Dm_den Dm_quiet
+                _ _ _ _ Gd E) as ((Sh' & _) & _ & _).
+    destruct (drain_fixpoint F Dm (Dof gr) Dem (Dtsof gr) rank N den rank_ok txn_D_range Dem_range txn_Dts_range den_eq Dm_den Dm_quiet
+                txn_Dts_complete _ _ _ _ Gd E) as (_ & _ & Den).
     assert (ND0 : forall n, n < N -> done (get (g init_st) n) = false).
     { intros n Hn. apply (gr1_flags n Hn). }
-    destruct (drain_log_spec F (Dof gr) (Dtsof gr) rank N txn_rank_ok txn_D_range txn_Dts_range txn_Dts_complete _ _ _ _ Gd eq_refl ND0 E)
-      as (NDl & Iff & _ & St).
-    assert (Den : forall n, n < N ->
-              fire (get (g s') n) = denf F (S N) gr fs n /\ changed (get (g s') n) = is_some (denf F (S N) gr fs n)).
-    { apply fixpoint_is_den; auto. intros n Hn Dn. destruct (Src n Hn Dn) as [A B]. rewrite A, B.
-      simpl. destruct (gr1_flags n Hn) as (_ & _ & _ & _ & A' & B'). auto. }
+    destruct (drain_log_spec F Dm (Dof gr) Dem (Dtsof gr) rank N den rank_ok txn_D_range Dem_range txn_Dts_range den_eq Dm_den Dm_quiet
+                txn_Dts_complete _ _ _ _ Gd eq_refl ND0 E) as (NDl & Iff & _ & St).
+    assert (Ein : forall n, inp Dm (Dof gr) (g s') n = Dof gr n ++ demanded n).
+    { intros n. unfold inp, exs_of, ins_of, demanded, fires_of. f_equal. f_equal.
+      apply map_ext_in. intros d Hd. apply Den. apply (txn_D_range n d Hd). }
+    assert (InpR : forall n d, n < N -> In d (Dof gr n ++ demanded n) -> d < N).
+    { intros n d Hn Hd. apply in_app_or in Hd as [Hd|Hd]; [apply (txn_D_range n d Hd)|].
+      apply (Dem_range n). apply (Dm_den n Hn). exact Hd. }
     destruct Sh' as [L' Sh'].
     split; [|split; [|split; [|split]]].
     - apply graph_ext; [unfold cleanup; rewrite map_length; auto|].
       intros n Hn. unfold cleanup in Hn. rewrite map_length, L' in Hn. rewrite get_cleanup by lia.
-      destruct Hwf as (R & _). apply cln_rest; [apply R; auto | apply Sh'; auto | apply Sh'; auto].
+      destruct Hwf as (R & _). apply cln_rest; [apply R; auto | apply Sh'; auto | | apply Sh'; auto].
+      rewrite (drain_dem F Dm false _ _ _ _ E). apply gr1_dem.
     - rewrite map_get_seq, L'. apply map_ext_in. intros n Hn. apply in_seq in Hn. apply Den. lia.
     - apply NoDup_rev. exact NDl.
-    - intros n. rewrite <- in_rev, Iff. split; intros (Hn & NE & d & Hd & Cd); (split; [auto|split; [auto|exists d; split; auto]]).
-      + destruct (Den d (txn_D_range n d Hd)) as [_ B]. rewrite B in Cd. destruct (denf F (S N) gr fs d); [discriminate|discriminate].
-      + destruct (Den d (txn_D_range n d Hd)) as [_ B]. rewrite B. destruct (denf F (S N) gr fs d); [reflexivity|contradiction].
-    - exact St.
+    - intros n. rewrite <- in_rev, Iff. rewrite Ein.
+      split; intros (Hn & NE & d & Hd & Cd); (split; [auto|split; [auto|exists d; split; auto]]).
+      + destruct (Den d (InpR n d Hn Hd)) as [_ B]. rewrite B in Cd. destruct (den d); [discriminate|discriminate].
+      + destruct (Den d (InpR n d Hn Hd)) as [_ B]. rewrite B. destruct (den d); [reflexivity|contradiction].
+    - intros l1 n l2 El d Hd. apply (St l1 n l2 El d). rewrite Ein. exact Hd.
   Qed.
 End Txn.
 
 (* ---------------- any rank function can be compressed below the number of nodes ---------------- *)
-Fixpoint hf (gr : graph Val) (fuel n : nat) : nat :=
+(* E: the edges of a graph over the nodes below N *)
+Fixpoint hf (E : nat -> list nat) (fuel n : nat) : nat :=
   match fuel with 0 => 0 | S f =>
-    match deps (get gr n) with [] => 0 | ds => S (list_max (map (hf gr f) ds)) end
+    match E n with [] => 0 | ds => S (list_max (map (hf E f) ds)) end
   end.
 
-Lemma hf_stable (gr : graph Val) (rank : nat -> nat) :
-  (forall n d, In d (deps (get gr n)) -> rank d < rank n) ->
-  forall f1 f2 n, rank n < f1 -> rank n < f2 -> hf gr f1 n = hf gr f2 n.
+Lemma hf_stable (E : nat -> list nat) (rank : nat -> nat) :
+  (forall n d, In d (E n) -> rank d < rank n) ->
+  forall f1 f2 n, rank n < f1 -> rank n < f2 -> hf E f1 n = hf E f2 n.
 Proof.
   intros RK. induction f1 as [|f1 IH]; intros f2 n H1 H2; [lia|]. destruct f2 as [|f2]; [lia|]. cbn [hf].
-  destruct (deps (get gr n)) as [|d0 ds] eqn:Dn; auto.
-  assert (E : map (hf gr f1) (d0 :: ds) = map (hf gr f2) (d0 :: ds)).
+  destruct (E n) as [|d0 ds] eqn:Dn; auto.
+  assert (Eq : map (hf E f1) (d0 :: ds) = map (hf E f2) (d0 :: ds)).
   { apply map_ext_in. intros d Hd. rewrite <- Dn in Hd. apply RK in Hd. apply IH; lia. }
-  rewrite E. reflexivity.
+  rewrite Eq. reflexivity.
 Qed.
 
 Lemma list_max_in l : l <> [] -> In (list_max l) l.
@@ -340,44 +413,145 @@ Proof.
   rewrite Forall_forall in Fa. apply Fa; auto.
 Qed.
 
-Lemma ranked_bounded (gr : graph Val) : ranked gr -> deps_in_range gr -> ranked_b gr.
+(* a rank below the size of any set K of nodes closed under the edges *)
+Lemma height_bound (E : nat -> list nat) (K : list nat) (rank : nat -> nat) :
+  (forall n d, In d (E n) -> rank d < rank n) ->
+  (forall n d, In n K -> In d (E n) -> In d K) ->
+  exists h : nat -> nat,
+    (forall n d, In d (E n) -> h d < h n) /\ (forall n, In n K -> h n < length K).
 Proof.
-  intros [rank RK] DR. exists (fun n => hf gr (S (rank n)) n).
-  assert (Step : forall n d, In d (deps (get gr n)) -> hf gr (S (rank d)) d < hf gr (S (rank n)) n).
+  intros RK Cl. exists (fun n => hf E (S (rank n)) n).
+  assert (Step : forall n d, In d (E n) -> hf E (S (rank d)) d < hf E (S (rank n)) n).
   { intros n d Hd. pose proof (RK n d Hd) as Rd.
-    rewrite (hf_stable gr rank RK (S (rank d)) (rank n) d) by lia.
+    rewrite (hf_stable E rank RK (S (rank d)) (rank n) d) by lia.
     remember (rank n) as rn eqn:Hrn. cbn [hf].
-    destruct (deps (get gr n)) as [|d0 ds] eqn:Dn; [contradiction|]. subst rn.
-    assert (hf gr (rank n) d <= list_max (map (hf gr (rank n)) (d0 :: ds))) by (apply list_max_ge; apply in_map; exact Hd).
+    destruct (E n) as [|d0 ds] eqn:Dn; [contradiction|]. subst rn.
+    assert (hf E (rank n) d <= list_max (map (hf E (rank n)) (d0 :: ds))) by (apply list_max_ge; apply in_map; exact Hd).
     lia. }
   split; [exact Step|].
-  assert (Path : forall r n, rank n = r -> n < length gr ->
-            exists l, NoDup l /\ (forall x, In x l -> x < length gr /\ rank x <= rank n) /\
-                      length l = S (hf gr (S (rank n)) n)).
+  assert (Path : forall r n, rank n = r -> In n K ->
+            exists l, NoDup l /\ (forall x, In x l -> In x K /\ rank x <= rank n) /\
+                      length l = S (hf E (S (rank n)) n)).
   { induction r as [r IHr] using lt_wf_ind. intros n Hr Hn.
-    destruct (deps (get gr n)) as [|d0 ds] eqn:Dn.
+    destruct (E n) as [|d0 ds] eqn:Dn.
     - exists [n]. split; [constructor; [intros []|constructor]|]. split.
       + intros x [<-|[]]. split; auto.
       + cbn [hf]. rewrite Dn. reflexivity.
-    - assert (NEm : map (hf gr (rank n)) (d0 :: ds) <> []) by discriminate.
+    - assert (NEm : map (hf E (rank n)) (d0 :: ds) <> []) by discriminate.
       pose proof (list_max_in _ NEm) as Hin. apply in_map_iff in Hin as (d & Ed & Hd).
-      rewrite <- Dn in Hd. pose proof (RK n d Hd) as Rd. pose proof (DR n d Hd) as HdN.
-      destruct (IHr (rank d) ltac:(lia) d eq_refl HdN) as (l & NDl & El & Ll).
+      rewrite <- Dn in Hd. pose proof (RK n d Hd) as Rd. pose proof (Cl n d Hn Hd) as HdK.
+      destruct (IHr (rank d) ltac:(lia) d eq_refl HdK) as (l & NDl & El & Ll).
       exists (n :: l). split; [|split].
       + constructor; auto. intros Hnl. apply El in Hnl. lia.
       + intros x [<-|Hx]; [split; auto|]. apply El in Hx. split; [apply Hx|lia].
       + cbn [length]. rewrite Ll. f_equal.
-        rewrite (hf_stable gr rank RK (S (rank d)) (rank n) d) by lia. rewrite Ed.
+        rewrite (hf_stable E rank RK (S (rank d)) (rank n) d) by lia. rewrite Ed.
         remember (rank n) as rn eqn:Hrn. cbn [hf]. rewrite Dn. reflexivity. }
   intros n Hn. destruct (Path (rank n) n eq_refl Hn) as (l & NDl & El & Ll).
-  assert (Inc : incl l (seq 0 (length gr))) by (intros x Hx; apply in_seq; apply El in Hx; lia).
-  pose proof (NoDup_incl_length NDl Inc) as Le. rewrite seq_length in Le. lia.
+  assert (Inc : incl l K) by (intros x Hx; apply El in Hx; apply Hx).
+  pose proof (NoDup_incl_length NDl Inc) as Le. lia.
 Qed.
+
+Lemma edges_bounded (E : nat -> list nat) (N : nat) :
+  (exists rank : nat -> nat, forall n d, In d (E n) -> rank d < rank n) ->
+  (forall n d, In d (E n) -> d < N) ->
+  exists rank : nat -> nat, (forall n d, In d (E n) -> rank d < rank n) /\ (forall n, n < N -> rank n < N).
+Proof.
+  intros [rank RK] DR.
+  destruct (height_bound E (seq 0 N) rank RK) as (h & Hh & Hb).
+  { intros n d _ Hd. apply in_seq. specialize (DR n d Hd). lia. }
+  exists h. split; [exact Hh|]. intros n Hn. specialize (Hb n). rewrite seq_length in Hb. apply Hb. apply in_seq. lia.
+Qed.
+
+Definition ranked_b (gr : graph Val) :=
+  exists rank : nat -> nat, (forall n d, In d (pot gr n) -> rank d < rank n) /\
+                            (forall n, n < length gr -> rank n < length gr).
+
+Lemma ranked_bounded (gr : graph Val) : ranked gr -> deps_in_range gr -> dem_in_range gr -> ranked_b gr.
+Proof.
+  intros Rk DR MR. apply (edges_bounded (pot gr) (length gr) Rk).
+  intros n d Hd. unfold pot in Hd. apply in_app_or in Hd as [Hd|Hd]; [eapply DR; eauto | eapply MR; eauto].
+Qed.
+
+(* ONE TRANSACTION with demands that are, for every input whatsoever, among statically known potential
+   demand targets Dem (for instance those recorded in the graph): the solution is the executable
+   denotation denf *)
+Section TxnStatic.
+  Variable F : rule Val.
+  Variable Dm : demand Val.
+  Variable gr : graph Val.
+  Variable fs : list (nat * Val).
+  Variable Dem : nat -> list nat.
+  Hypothesis Hwf : wf gr.
+  Hypothesis Hrk : exists rank : nat -> nat, forall n d, In d (deps (get gr n) ++ Dem n) -> rank d < rank n.
+  Hypothesis Dem_range : forall n d, In d (Dem n) -> d < length gr.
+  Hypothesis Hsrc : sources gr fs.
+  Hypothesis Dm_sub : forall n ins, incl (Dm n ins) (Dem n).
+  Hypothesis Dm_quiet : forall n ins, existsb is_some ins = false -> Dm n ins = [].
+
+  Local Notation N := (length gr).
+  Local Notation DEN := (denf F Dm (S N) gr fs).
+
+  (* the fixpoint equation of the denotation *)
+  Lemma denf_unfold n :
+    DEN n = match deps (get gr n) with
+            | [] => lookup fs n
+            | ds => if existsb is_some (map DEN (ds ++ Dm n (map DEN ds)))
+                    then F n (map DEN ds) (map DEN (Dm n (map DEN ds))) else None
+            end.
+  Proof.
+    destruct Hwf as (_ & DR & _).
+    destruct (edges_bounded (fun k => deps (get gr k) ++ Dem k) N Hrk) as (rank & RK & RB).
+    { intros k d Hd. apply in_app_or in Hd as [Hd|Hd]; [eapply DR; eauto | eapply Dem_range; eauto]. }
+    cbn [denf]. destruct (deps (get gr n)) as [|d0 ds] eqn:Dn; auto. cbv zeta.
+    assert (St : forall l, (forall d, In d l -> d < N) -> map (denf F Dm N gr fs) l = map DEN l).
+    { intros l Hl. apply map_ext_in. intros d Hd. pose proof (RB d (Hl d Hd)).
+      apply (denf_stable F Dm gr fs Dem rank RK Dm_sub); lia. }
+    assert (E : map (denf F Dm N gr fs) (d0 :: ds) = map DEN (d0 :: ds)).
+    { apply St. intros d Hd. rewrite <- Dn in Hd. eapply DR; eauto. }
+    rewrite E.
+    assert (E2 : map (denf F Dm N gr fs) (Dm n (map DEN (d0 :: ds))) = map DEN (Dm n (map DEN (d0 :: ds)))).
+    { apply St. intros d Hd. apply Dm_sub in Hd. eapply Dem_range; eauto. }
+    rewrite !map_app, E, E2. reflexivity.
+  Qed.
+
+  Lemma txn_run_denf :
+    exists s', drain F Dm false (S (S N)) (S (S (N + N))) (init_st gr fs) = Some s' /\
+      cleanup (g s') = gr /\
+      map fire (g s') = map DEN (seq 0 N) /\
+      NoDup (rev (log s')) /\
+      (forall n, In n (rev (log s')) <->
+                 (n < N /\ Dof gr n <> [] /\ exists d, In d (Dof gr n ++ demanded Dm gr DEN n) /\ DEN d <> None)) /\
+      (forall l1 n l2, rev (log s') = l1 ++ n :: l2 -> forall d, In d (Dof gr n ++ demanded Dm gr DEN n) -> ~ In d l2).
+  Proof.
+    destruct Hrk as [rank RK].
+    apply (txn_run F Dm gr fs Dem rank DEN Hwf RK Dem_range Hsrc).
+    - intros n Hn Dn. rewrite denf_unfold, Dn. reflexivity.
+    - intros n Hn NE. rewrite denf_unfold at 1. destruct (deps (get gr n)) as [|d0 ds]; [contradiction|]. reflexivity.
+    - intros n Hn. apply Dm_sub.
+    - exact Dm_quiet.
+  Qed.
+End TxnStatic.
 End Poly.
 Arguments fire_all : simpl never.
 
+(* ---------------- the demand function of the scripts ---------------- *)
+Lemma sDm_sub gr n ins : incl (sDm gr n ins) (dem (get gr n)).
+Proof. unfold sDm. destruct (is_some (nth 0 ins None)); [apply incl_refl | intros d []]. Qed.
+
+Lemma sDm_quiet gr n ins : existsb is_some ins = false -> sDm gr n ins = [].
+Proof.
+  intros H. unfold sDm. destruct ins as [|o ins]; [reflexivity|]. cbn [nth]. cbn [existsb] in H.
+  apply orb_false_elim in H as [H _]. rewrite H. reflexivity.
+Qed.
+
 (* the value node n fires in a transaction that sends fs, None if it does not fire *)
-Definition den (gr : graph nat) (fs : list (nat * nat)) (n : nat) : option nat := denf Fmix (S (length gr)) gr fs n.
+Definition den (gr : graph nat) (fs : list (nat * nat)) (n : nat) : option nat :=
+  denf Fscript (sDm gr) (S (length gr)) gr fs n.
+(* the nodes that node n demands in that transaction: all its potential targets if its first static
+   dependency fires *)
+Definition sdemanded (gr : graph nat) (fs : list (nat * nat)) (n : nat) : list nat :=
+  sDm gr n (map (den gr fs) (deps (get gr n))).
 
 (* ---------------- C03 for EngineScript.estep ---------------- *)
 Lemma in_range_spec {Val} (gr : graph Val) l : in_range gr l = true <-> forall d, In d l -> d < length gr.
@@ -386,20 +560,20 @@ Proof.
 Qed.
 
 (* the update log of a transaction, oldest first: every node is updated at most once, exactly the
-   derived nodes one of whose dependencies fires, and never before one of its dependencies *)
+   derived nodes one of whose static dependencies or demanded nodes fires, and never before one of these *)
 Definition once_spec (gr : graph nat) (fs : list (nat * nat)) (lg : list nat) :=
   NoDup lg /\
   (forall n, In n lg <-> (n < length gr /\ deps (get gr n) <> [] /\
-                          exists d, In d (deps (get gr n)) /\ den gr fs d <> None)) /\
-  (forall l1 n l2, lg = l1 ++ n :: l2 -> forall d, In d (deps (get gr n)) -> ~ In d l2).
+                          exists d, In d (deps (get gr n) ++ sdemanded gr fs n) /\ den gr fs d <> None)) /\
+  (forall l1 n l2, lg = l1 ++ n :: l2 -> forall d, In d (deps (get gr n) ++ sdemanded gr fs n) -> ~ In d l2).
 
 Theorem C03_txn gr fs : wf gr -> ranked gr -> sources gr fs ->
   exists lg, estep false gr (ETxn fs) = (gr, Some (lg, map (den gr fs) (seq 0 (length gr)))) /\
              once_spec gr fs lg.
 Proof.
   intros Hwf Hr Hs.
-  destruct (ranked_bounded gr Hr (proj1 (proj2 Hwf))) as (rank & RK & RB).
-  destruct (txn_run Fmix gr fs rank Hwf RK RB Hs) as (s' & E & Cl & Fi & ND & Iff & St).
+  destruct (txn_run_denf Fscript (sDm gr) gr fs (fun k => dem (get gr k)) Hwf Hr (proj1 (proj2 (proj2 Hwf))) Hs (sDm_sub gr) (sDm_quiet gr))
+    as (s' & E & Cl & Fi & ND & Iff & St).
   exists (rev (log s')). split; [|split; [exact ND|split; [exact Iff|exact St]]].
   unfold estep.
   assert (IR : in_range gr (map fst fs) = true).
@@ -419,37 +593,50 @@ Proof.
   injection E as _ <- _. exact O.
 Qed.
 
-(* any other order of the firing list, and any other graph with the same dependency lists (whatever
-   the order - or multiplicity - inside its dependents lists): same firings, same set of updates *)
+Lemma map_field_get {A} (f : node nat -> A) (gr gr2 : graph nat) :
+  map f gr2 = map f gr -> forall n, f (get gr2 n) = f (get gr n).
+Proof.
+  intros E n.
+  assert (EL : length gr2 = length gr) by (rewrite <- (map_length f gr2), E; apply map_length).
+  destruct (lt_dec n (length gr)) as [Hn|Hn].
+  - unfold get. rewrite <- (map_nth f gr2), <- (map_nth f gr), E. reflexivity.
+  - rewrite !get_default by lia. reflexivity.
+Qed.
+
+(* any other order of the firing list, and any other graph with the same dependency and potential-demand
+   lists (whatever the order - or multiplicity - inside its dependents lists): same firings, same set of
+   updates *)
 Theorem C03_order_independent gr fs gr2 fs2 :
   wf gr -> ranked gr -> sources gr fs ->
-  wf gr2 -> map deps gr2 = map deps gr -> Permutation fs fs2 ->
+  wf gr2 -> map deps gr2 = map deps gr -> map dem gr2 = map dem gr -> Permutation fs fs2 ->
   exists lg lg2 fires,
     estep false gr (ETxn fs) = (gr, Some (lg, fires)) /\
     estep false gr2 (ETxn fs2) = (gr2, Some (lg2, fires)) /\
     Permutation lg lg2.
 Proof.
-  intros W1 R1 S1 W2 ED Pm.
+  intros W1 R1 S1 W2 ED EM Pm.
   assert (EL : length gr2 = length gr).
   { rewrite <- (map_length deps gr2), ED. apply map_length. }
-  assert (EDn : forall n, deps (get gr2 n) = deps (get gr n)).
-  { intros n. destruct (lt_dec n (length gr)) as [Hn|Hn].
-    - unfold get. rewrite <- (map_nth deps gr2), <- (map_nth deps gr), ED. reflexivity.
-    - rewrite !get_default by lia. reflexivity. }
+  assert (EDn : forall n, deps (get gr2 n) = deps (get gr n)) by (apply map_field_get; exact ED).
+  assert (EMn : forall n, dem (get gr2 n) = dem (get gr n)) by (apply map_field_get; exact EM).
   assert (R2 : ranked gr2).
-  { destruct R1 as [rank RK]. exists rank. intros n d. rewrite EDn. apply RK. }
+  { destruct R1 as [rank RK]. exists rank. intros n d. unfold pot. rewrite EDn, EMn. apply RK. }
   assert (S2 : sources gr2 fs2).
   { destruct S1 as [ND Sr]. split.
     - eapply Permutation_NoDup; [apply Permutation_map; exact Pm | exact ND].
     - intros n v H. apply (Permutation_in _ (Permutation_sym Pm)) in H. rewrite EL, EDn. apply Sr with v; auto. }
+  assert (EDm : forall n ins, sDm gr2 n ins = sDm gr n ins).
+  { intros n ins. unfold sDm. rewrite EMn. reflexivity. }
   assert (Eden : forall n, den gr2 fs2 n = den gr fs n).
   { intros n. unfold den. rewrite EL. apply denf_deps_only; auto.
     intros k. symmetry. apply lookup_perm; [apply S1 | exact Pm]. }
+  assert (Edem : forall n, sdemanded gr2 fs2 n = sdemanded gr fs n).
+  { intros n. unfold sdemanded. rewrite EDm, EDn. rewrite (map_ext _ _ Eden). reflexivity. }
   destruct (C03_txn gr fs W1 R1 S1) as (lg & E1 & ND1 & Iff1 & _).
   destruct (C03_txn gr2 fs2 W2 R2 S2) as (lg2 & E2 & ND2 & Iff2 & _).
   exists lg, lg2, (map (den gr fs) (seq 0 (length gr))). split; [exact E1|]. split.
   - rewrite E2, EL. rewrite (map_ext _ _ Eden). reflexivity.
-  - apply NoDup_Permutation; auto. intros n. rewrite Iff1, Iff2, EL, EDn.
+  - apply NoDup_Permutation; auto. intros n. rewrite Iff1, Iff2, EL, EDn, Edem.
     split; intros (A & B & d & Hd & Nd); (split; [auto|split; [auto|exists d; split; auto]]).
     + rewrite Eden; auto.
     + rewrite <- Eden; auto.
@@ -460,62 +647,61 @@ Print Assumptions C03_final.
 Print Assumptions C03_once.
 Print Assumptions C03_order_independent.
 
-(* den satisfies the equation it was meant to: a fired source yields its value; a derived node
-   yields its rule applied to the denotations of its dependencies iff one of them fires *)
-Theorem den_unfold gr fs n : deps_in_range gr -> ranked gr -> n < length gr ->
+(* den satisfies the equation it was meant to: a fired source yields its value; a derived node yields its
+   rule applied to the denotations of its static dependencies followed by those of the nodes it demands,
+   iff one of them fires *)
+Theorem den_unfold gr fs n : wf gr -> ranked gr ->
   den gr fs n = match deps (get gr n) with
                 | [] => lookup fs n
-                | ds => if existsb is_some (map (den gr fs) ds) then Fmix n (map (den gr fs) ds) else None
+                | ds => if existsb is_some (map (den gr fs) (ds ++ sdemanded gr fs n))
+                        then Fmix n (map (den gr fs) (ds ++ sdemanded gr fs n)) else None
                 end.
 Proof.
-  intros DR Rk Hn. destruct (ranked_bounded gr Rk DR) as (rank & RK & RB).
-  unfold den. cbn [denf]. destruct (deps (get gr n)) as [|d0 ds] eqn:Dn; auto. cbv zeta.
-  assert (E : map (denf Fmix (length gr) gr fs) (d0 :: ds) = map (denf Fmix (S (length gr)) gr fs) (d0 :: ds)).
-  { apply map_ext_in. intros d Hd. rewrite <- Dn in Hd. pose proof (RB d (DR n d Hd)).
-    apply (denf_stable Fmix gr fs rank RK); lia. }
-  rewrite E. reflexivity.
+  intros Hwf Rk. unfold den at 1.
+  rewrite (denf_unfold Fscript (sDm gr) gr fs (fun k => dem (get gr k)) Hwf Rk (proj1 (proj2 (proj2 Hwf))) (sDm_sub gr)).
+  unfold sdemanded. destruct (deps (get gr n)) as [|d0 ds]; [reflexivity|].
+  unfold Fscript. rewrite <- map_app. reflexivity.
 Qed.
 
 (* the special case asked for: the same graph with every dependents list permuted *)
 Lemma wf_perm_dependents (gr gr2 : graph nat) :
-  wf gr -> at_rest gr2 -> map deps gr2 = map deps gr ->
+  wf gr -> at_rest gr2 -> map deps gr2 = map deps gr -> map dem gr2 = map dem gr ->
   (forall n, Permutation (dependents (get gr2 n)) (dependents (get gr n))) -> wf gr2.
 Proof.
-  intros (R & DR & TR & C) R2 ED Pm.
+  intros (R & DR & MR & TR & C) R2 ED EM Pm.
   assert (EL : length gr2 = length gr).
   { rewrite <- (map_length deps gr2), ED. apply map_length. }
-  assert (EDn : forall n, deps (get gr2 n) = deps (get gr n)).
-  { intros n. destruct (lt_dec n (length gr)) as [Hn|Hn].
-    - unfold get. rewrite <- (map_nth deps gr2), <- (map_nth deps gr), ED. reflexivity.
-    - rewrite !get_default by lia. reflexivity. }
-  split; auto. split; [|split].
+  assert (EDn : forall n, deps (get gr2 n) = deps (get gr n)) by (apply map_field_get; exact ED).
+  assert (EMn : forall n, dem (get gr2 n) = dem (get gr n)) by (apply map_field_get; exact EM).
+  split; auto. split; [|split; [|split]].
   - intros n d. rewrite EDn, EL. apply DR.
+  - intros n d. rewrite EMn, EL. apply MR.
   - intros n m Hm. rewrite EL. apply (TR n). eapply Permutation_in; [apply Pm | exact Hm].
   - intros n d. rewrite EDn. intros Hd. eapply Permutation_in; [apply Permutation_sym; apply Pm | apply C; auto].
 Qed.
 
 Corollary C03_dependents_order_independent gr fs gr2 fs2 :
   wf gr -> ranked gr -> sources gr fs ->
-  at_rest gr2 -> map deps gr2 = map deps gr ->
+  at_rest gr2 -> map deps gr2 = map deps gr -> map dem gr2 = map dem gr ->
   (forall n, Permutation (dependents (get gr2 n)) (dependents (get gr n))) -> Permutation fs fs2 ->
   exists lg lg2 fires,
     estep false gr (ETxn fs) = (gr, Some (lg, fires)) /\
     estep false gr2 (ETxn fs2) = (gr2, Some (lg2, fires)) /\
     Permutation lg lg2.
 Proof.
-  intros W1 R1 S1 R2 ED PmD Pm. apply C03_order_independent; auto. eapply wf_perm_dependents; eauto.
+  intros W1 R1 S1 R2 ED EM PmD Pm. apply C03_order_independent; auto. eapply wf_perm_dependents; eauto.
 Qed.
 
 Print Assumptions den_unfold.
 Print Assumptions C03_dependents_order_independent.
 
-(* ---------------- building graphs: ENode and EAddDep keep the hypotheses ---------------- *)
+(* ---------------- building graphs: ENode, ENodeD and EAddDep keep the hypotheses ---------------- *)
 Definition with_dependent (x : node nat) (n : nat) : node nat :=
-  {| deps := deps x; dependents := dependents x ++ [n]; visited := visited x; done := done x;
+  {| deps := deps x; dem := dem x; dependents := dependents x ++ [n]; visited := visited x; done := done x;
      changed := changed x; fire := fire x |}.
 (* equal up to the dependents list *)
 Definition same_but_dependents (x y : node nat) :=
-  deps x = deps y /\ visited x = visited y /\ done x = done y /\ changed x = changed y /\ fire x = fire y.
+  deps x = deps y /\ dem x = dem y /\ visited x = visited y /\ done x = done y /\ changed x = changed y /\ fire x = fire y.
 
 Lemma add_dependent_get (g : graph nat) d n k : d < length g ->
   get (add_dependent g d n) k = if Nat.eqb d k then with_dependent (get g d) n else get g k.
@@ -536,8 +722,8 @@ Proof.
     assert (L1 : length (add_dependent g0 d n) = length g0) by (unfold add_dependent; apply set_length).
     destruct (IH (add_dependent g0 d n)) as [L G].
     { intros x Hx. rewrite L1. apply R; simpl; auto. }
-    split; [congruence|]. intros k. destruct (G k) as [(A1 & A2 & A3 & A4 & A5) B].
-    rewrite add_dependent_get in A1, A2, A3, A4, A5 by auto.
+    split; [congruence|]. intros k. destruct (G k) as [(A1 & A0 & A2 & A3 & A4 & A5) B].
+    rewrite add_dependent_get in A1, A0, A2, A3, A4, A5 by auto.
     split.
     + unfold same_but_dependents. destruct (Nat.eqb_spec d k) as [->|Ne]; simpl in *; auto 10.
     + intros j. rewrite B, add_dependent_get by auto.
@@ -546,7 +732,7 @@ Proof.
       * intuition.
 Qed.
 
-Definition dflt : node nat := {| deps := []; dependents := []; visited := true; done := true; changed := false; fire := None |}.
+Definition dflt : node nat := {| deps := []; dem := []; dependents := []; visited := true; done := true; changed := false; fire := None |}.
 
 Lemma get_snoc_cases (gr : graph nat) x k :
   (k < length gr /\ get (gr ++ [x]) k = get gr k) \/
@@ -559,67 +745,93 @@ Proof.
   - right; right. split; auto. apply get_default. rewrite app_length. simpl. lia.
 Qed.
 
-Definition new_node (gr : graph nat) (ds : list nat) : graph nat :=
-  fold_left (fun g d => add_dependent g d (length gr)) ds (gr ++ [mknode ds]).
+(* a new node with static dependencies ds and potential demand targets dm *)
+Definition new_node (gr : graph nat) (ds dm : list nat) : graph nat :=
+  fold_left (fun g d => add_dependent g d (length gr)) ds (gr ++ [mknode ds dm]).
 
-Lemma estep_ENode o gr ds : estep o gr (ENode ds) = if in_range gr ds then (new_node gr ds, None) else (gr, None).
+Lemma estep_ENode o gr ds : estep o gr (ENode ds) = if in_range gr ds then (new_node gr ds [], None) else (gr, None).
 Proof. reflexivity. Qed.
+Lemma estep_ENodeD o gr ds dm :
+  estep o gr (ENodeD ds dm) = if in_range gr (ds ++ dm) then (new_node gr ds dm, None) else (gr, None).
+Proof. reflexivity. Qed.
+(* ENode ds = ENodeD ds [] *)
+Lemma estep_ENode_ENodeD o gr ds : estep o gr (ENode ds) = estep o gr (ENodeD ds []).
+Proof. rewrite estep_ENode, estep_ENodeD, app_nil_r. reflexivity. Qed.
 Lemma estep_EAddDep o gr n m : estep o gr (EAddDep n m) = if in_range gr [n; m] then (add_dep gr n m, None) else (gr, None).
 Proof. reflexivity. Qed.
 
-Lemma new_node_spec (gr : graph nat) ds : in_range gr ds = true ->
-  length (new_node gr ds) = S (length gr) /\
-  forall k, same_but_dependents (get (new_node gr ds) k) (get (gr ++ [mknode ds]) k) /\
-            forall j, In j (dependents (get (new_node gr ds) k)) <->
-                      In j (dependents (get (gr ++ [mknode ds]) k)) \/ (j = length gr /\ In k ds).
+Lemma in_range_app {Val} (gr : graph Val) l1 l2 : in_range gr (l1 ++ l2) = in_range gr l1 && in_range gr l2.
+Proof. unfold in_range. apply forallb_app. Qed.
+
+Lemma new_node_spec (gr : graph nat) ds dm : in_range gr ds = true ->
+  length (new_node gr ds dm) = S (length gr) /\
+  forall k, same_but_dependents (get (new_node gr ds dm) k) (get (gr ++ [mknode ds dm]) k) /\
+            forall j, In j (dependents (get (new_node gr ds dm) k)) <->
+                      In j (dependents (get (gr ++ [mknode ds dm]) k)) \/ (j = length gr /\ In k ds).
 Proof.
   intros IR. rewrite in_range_spec in IR.
-  destruct (add_dependents_spec (length gr) ds (gr ++ [mknode ds])) as [L G].
+  destruct (add_dependents_spec (length gr) ds (gr ++ [mknode ds dm])) as [L G].
   { intros d Hd. rewrite app_length. simpl. specialize (IR d Hd). lia. }
   split; [unfold new_node; rewrite L, app_length; simpl; lia | exact G].
 Qed.
 
-Theorem wf_ENode (gr : graph nat) ds : wf gr -> in_range gr ds = true -> wf (new_node gr ds).
+Theorem wf_ENodeD (gr : graph nat) ds dm : wf gr -> in_range gr (ds ++ dm) = true -> wf (new_node gr ds dm).
 Proof.
-  intros (R & DR & TR & C) IR. destruct (new_node_spec gr ds IR) as [L G]. rewrite in_range_spec in IR.
-  split; [|split; [|split]].
-  - intros k Hk. destruct (G k) as [(A1 & A2 & A3 & A4 & A5) _]. unfold rest. rewrite A2, A3, A4, A5.
-    destruct (get_snoc_cases gr (mknode ds) k) as [[Hl ->]|[[He ->]|[Hg _]]]; [apply R; auto | unfold mknode; simpl; auto | lia].
+  intros (R & DR & MR & TR & C) IRa. rewrite in_range_app in IRa. apply andb_prop in IRa as [IR IRm].
+  destruct (new_node_spec gr ds dm IR) as [L G]. rewrite in_range_spec in IR, IRm.
+  split; [|split; [|split; [|split]]].
+  - intros k Hk. destruct (G k) as [(A1 & A0 & A2 & A3 & A4 & A5) _]. unfold rest. rewrite A2, A3, A4, A5.
+    destruct (get_snoc_cases gr (mknode ds dm) k) as [[Hl ->]|[[He ->]|[Hg _]]]; [apply R; auto | unfold mknode; simpl; auto | lia].
   - intros k d. destruct (G k) as [(A1 & _) _]. rewrite A1, L.
-    destruct (get_snoc_cases gr (mknode ds) k) as [[Hl ->]|[[He ->]|[Hg ->]]]; simpl.
+    destruct (get_snoc_cases gr (mknode ds dm) k) as [[Hl ->]|[[He ->]|[Hg ->]]]; simpl.
     + intros Hd. specialize (DR k d Hd). lia.
     + intros Hd. specialize (IR d Hd). lia.
     + intros [].
+  - intros k d. destruct (G k) as [(_ & A0 & _) _]. rewrite A0, L.
+    destruct (get_snoc_cases gr (mknode ds dm) k) as [[Hl ->]|[[He ->]|[Hg ->]]]; simpl.
+    + intros Hd. specialize (MR k d Hd). lia.
+    + intros Hd. specialize (IRm d Hd). lia.
+    + intros [].
   - intros k m. destruct (G k) as [_ B]. rewrite B, L. intros [Hm|[-> _]]; [|lia]. revert Hm.
-    destruct (get_snoc_cases gr (mknode ds) k) as [[Hl ->]|[[He ->]|[Hg ->]]]; simpl.
+    destruct (get_snoc_cases gr (mknode ds dm) k) as [[Hl ->]|[[He ->]|[Hg ->]]]; simpl.
     + intros Hm. specialize (TR k m Hm). lia.
     + intros [].
     + intros [].
   - intros k d. destruct (G k) as [(A1 & _) _]. destruct (G d) as [_ B]. rewrite A1, B.
-    destruct (get_snoc_cases gr (mknode ds) k) as [[Hl ->]|[[He ->]|[Hg ->]]]; simpl.
+    destruct (get_snoc_cases gr (mknode ds dm) k) as [[Hl ->]|[[He ->]|[Hg ->]]]; simpl.
     + intros Hd. left. rewrite get_app_l by (eapply DR; eauto). apply C; auto.
     + intros Hd. right. split; auto.
     + intros [].
 Qed.
 
-Theorem ranked_ENode (gr : graph nat) ds : wf gr -> in_range gr ds = true -> ranked gr -> ranked (new_node gr ds).
+Theorem wf_ENode (gr : graph nat) ds : wf gr -> in_range gr ds = true -> wf (new_node gr ds []).
+Proof. intros W IR. apply wf_ENodeD; auto. rewrite app_nil_r. exact IR. Qed.
+
+(* a new node sits above its static dependencies and its potential demand targets *)
+Theorem ranked_ENodeD (gr : graph nat) ds dm : wf gr -> in_range gr (ds ++ dm) = true -> ranked gr -> ranked (new_node gr ds dm).
 Proof.
-  intros (_ & DR & _) IR [rank RK]. destruct (new_node_spec gr ds IR) as [L G]. rewrite in_range_spec in IR.
-  exists (fun k => if Nat.eqb k (length gr) then S (list_max (map rank ds)) else rank k).
-  intros k d. destruct (G k) as [(A1 & _) _]. rewrite A1.
-  destruct (get_snoc_cases gr (mknode ds) k) as [[Hl ->]|[[He ->]|[Hg ->]]]; simpl.
-  - intros Hd. pose proof (DR k d Hd) as HdN.
+  intros (_ & DR & MR & _) IRa [rank RK]. pose proof IRa as IRb. rewrite in_range_app in IRb. apply andb_prop in IRb as [IR _].
+  destruct (new_node_spec gr ds dm IR) as [L G]. rewrite in_range_spec in IRa.
+  exists (fun k => if Nat.eqb k (length gr) then S (list_max (map rank (ds ++ dm))) else rank k).
+  intros k d. unfold pot. destruct (G k) as [(A1 & A0 & _) _]. rewrite A1, A0.
+  destruct (get_snoc_cases gr (mknode ds dm) k) as [[Hl ->]|[[He ->]|[Hg ->]]]; simpl.
+  - intros Hd.
+    assert (HdN : d < length gr) by (apply in_app_or in Hd as [Hd|Hd]; [eapply DR; eauto | eapply MR; eauto]).
     destruct (Nat.eqb_spec d (length gr)); [lia|]. destruct (Nat.eqb_spec k (length gr)); [lia|]. apply RK; auto.
-  - intros Hd. pose proof (IR d Hd) as HdN.
+  - intros Hd. pose proof (IRa d Hd) as HdN.
     destruct (Nat.eqb_spec d (length gr)); [lia|]. rewrite He, Nat.eqb_refl.
-    assert (rank d <= list_max (map rank ds)) by (apply list_max_ge; apply in_map; auto). lia.
+    assert (rank d <= list_max (map rank (ds ++ dm))) by (apply list_max_ge; apply in_map; auto). lia.
   - intros [].
 Qed.
+
+Theorem ranked_ENode (gr : graph nat) ds : wf gr -> in_range gr ds = true -> ranked gr -> ranked (new_node gr ds []).
+Proof. intros W IR. apply ranked_ENodeD; auto. rewrite app_nil_r. exact IR. Qed.
 
 Lemma add_dep_spec (gr : graph nat) n m : n < length gr -> m < length gr ->
   length (add_dep gr n m) = length gr /\
   forall k, deps (get (add_dep gr n m) k) = (if Nat.eqb n k then deps (get gr k) ++ [m] else deps (get gr k)) /\
             dependents (get (add_dep gr n m) k) = (if Nat.eqb m k then dependents (get gr k) ++ [n] else dependents (get gr k)) /\
+            dem (get (add_dep gr n m) k) = dem (get gr k) /\
             visited (get (add_dep gr n m) k) = visited (get gr k) /\ done (get (add_dep gr n m) k) = done (get gr k) /\
             changed (get (add_dep gr n m) k) = changed (get gr k) /\ fire (get (add_dep gr n m) k) = fire (get gr k).
 Proof.
@@ -631,16 +843,17 @@ Qed.
 
 Theorem wf_EAddDep (gr : graph nat) n m : wf gr -> in_range gr [n; m] = true -> wf (add_dep gr n m).
 Proof.
-  intros (R & DR & TR & C) IR. rewrite in_range_spec in IR.
+  intros (R & DR & MR & TR & C) IR. rewrite in_range_spec in IR.
   assert (Hn : n < length gr) by (apply IR; simpl; auto).
   assert (Hm : m < length gr) by (apply IR; simpl; auto).
   destruct (add_dep_spec gr n m Hn Hm) as [L G].
   assert (Keep : forall d j, In j (dependents (get gr d)) -> In j (dependents (get (add_dep gr n m) d))).
   { intros d j Hj. destruct (G d) as (_ & B & _). rewrite B. destruct (Nat.eqb m d); [apply in_or_app; auto|auto]. }
-  split; [|split; [|split]].
-  - intros k Hk. rewrite L in Hk. destruct (G k) as (_ & _ & A2 & A3 & A4 & A5). unfold rest. rewrite A2, A3, A4, A5. apply R; auto.
+  split; [|split; [|split; [|split]]].
+  - intros k Hk. rewrite L in Hk. destruct (G k) as (_ & _ & _ & A2 & A3 & A4 & A5). unfold rest. rewrite A2, A3, A4, A5. apply R; auto.
   - intros k d. destruct (G k) as (A & _). rewrite A, L. destruct (Nat.eqb n k); [|apply DR].
     intros Hd. apply in_app_or in Hd as [Hd|[<-|[]]]; [eapply DR; eauto | auto].
+  - intros k d. destruct (G k) as (_ & _ & A & _). rewrite A, L. apply MR.
   - intros k j. destruct (G k) as (_ & B & _). rewrite B, L. destruct (Nat.eqb m k); [|apply TR].
     intros Hj. apply in_app_or in Hj as [Hj|[<-|[]]]; [eapply TR; eauto | auto].
   - intros k d. destruct (G k) as (A & _). rewrite A. destruct (Nat.eqb_spec n k) as [->|Ne].
@@ -651,24 +864,26 @@ Qed.
 
 (* a new edge that respects some rank function of the graph keeps it ranked *)
 Theorem ranked_EAddDep (gr : graph nat) n m (rank : nat -> nat) : in_range gr [n; m] = true ->
-  (forall k d, In d (deps (get gr k)) -> rank d < rank k) -> rank m < rank n -> ranked (add_dep gr n m).
+  (forall k d, In d (pot gr k) -> rank d < rank k) -> rank m < rank n -> ranked (add_dep gr n m).
 Proof.
   intros IR RK Hr. rewrite in_range_spec in IR.
   assert (Hn : n < length gr) by (apply IR; simpl; auto).
   assert (Hm : m < length gr) by (apply IR; simpl; auto).
   destruct (add_dep_spec gr n m Hn Hm) as [L G]. exists rank.
-  intros k d. destruct (G k) as (A & _). rewrite A. destruct (Nat.eqb_spec n k) as [->|Ne]; [|apply RK].
-  intros Hd. apply in_app_or in Hd as [Hd|[<-|[]]]; [apply RK; auto | auto].
+  intros k d. unfold pot. destruct (G k) as (A & _ & B & _). rewrite A, B. destruct (Nat.eqb_spec n k) as [->|Ne]; [|apply RK].
+  intros Hd. apply in_app_or in Hd as [Hd|Hd]; [|apply RK; unfold pot; apply in_or_app; auto].
+  apply in_app_or in Hd as [Hd|[<-|[]]]; [apply RK; unfold pot; apply in_or_app; auto | auto].
 Qed.
 
 Definition is_build (op : eop) : bool := match op with ETxn _ => false | _ => true end.
 
-(* ENode / EAddDep steps preserve rest, range and completeness; ENode preserves rankedness, EAddDep
-   preserves it when the result is ranked (ranked_EAddDep gives a sufficient condition) *)
+(* ENode / ENodeD / EAddDep steps preserve rest, range and completeness; ENode and ENodeD preserve
+   rankedness, EAddDep preserves it when the result is ranked (ranked_EAddDep gives a sufficient condition) *)
 Theorem wf_estep_build o gr op : is_build op = true -> wf gr -> wf (fst (estep o gr op)).
 Proof.
-  intros B W. destruct op as [ds|n m|fs]; [| |discriminate].
+  intros B W. destruct op as [ds|ds dm|n m|fs]; [| | |discriminate].
   - rewrite estep_ENode. destruct (in_range gr ds) eqn:IR; simpl; auto. apply wf_ENode; auto.
+  - rewrite estep_ENodeD. destruct (in_range gr (ds ++ dm)) eqn:IR; simpl; auto. apply wf_ENodeD; auto.
   - rewrite estep_EAddDep. destruct (in_range gr [n; m]) eqn:IR; simpl; auto. apply wf_EAddDep; auto.
 Qed.
 
@@ -676,8 +891,9 @@ Theorem ranked_estep_build o gr op : is_build op = true -> wf gr -> ranked gr ->
   (forall n m, op = EAddDep n m -> in_range gr [n; m] = true -> ranked (add_dep gr n m)) ->
   ranked (fst (estep o gr op)).
 Proof.
-  intros B W Rk H. destruct op as [ds|n m|fs]; [| |discriminate].
+  intros B W Rk H. destruct op as [ds|ds dm|n m|fs]; [| | |discriminate].
   - rewrite estep_ENode. destruct (in_range gr ds) eqn:IR; simpl; auto. apply ranked_ENode; auto.
+  - rewrite estep_ENodeD. destruct (in_range gr (ds ++ dm)) eqn:IR; simpl; auto. apply ranked_ENodeD; auto.
   - rewrite estep_EAddDep. destruct (in_range gr [n; m]) eqn:IR; simpl; auto.
 Qed.
 
@@ -686,7 +902,7 @@ Definition run_script (orig : bool) (gr : graph nat) (ops : list eop) : graph na
 
 Lemma wf_nil : wf ([] : graph nat).
 Proof.
-  split; [intros n Hn; simpl in Hn; lia|]. split; [|split]; intros n d; rewrite get_default by (simpl; lia); intros [].
+  split; [intros n Hn; simpl in Hn; lia|]. split; [|split; [|split]]; intros n d; rewrite get_default by (simpl; lia); intros [].
 Qed.
 
 Theorem wf_run_script o ops : forall gr, forallb is_build ops = true -> wf gr -> wf (run_script o gr ops).
@@ -716,7 +932,7 @@ Proof. apply wf_run_script; [reflexivity | apply wf_nil]. Qed.
 
 Example Gex_ranked : ranked Gex.
 Proof.
-  exists (fun n => n). intros n d. rewrite Gex_eq.
+  exists (fun n => n). intros n d. rewrite Gex_eq. unfold pot.
   do 6 (destruct n as [|n]; [simpl; intuition lia|]).
   rewrite get_default by (simpl; lia). intros [].
 Qed.
@@ -739,6 +955,48 @@ Example C03_example_eval :
   estep false Gex (ETxn (rev ex_fs)) = (Gex, Some ([3; 2; 4; 5], [Some 1; Some 2; Some 4; Some 6; Some 26; Some 41])) /\
   map (den Gex ex_fs) (seq 0 6) = [Some 1; Some 2; Some 4; Some 6; Some 26; Some 41].
 Proof. vm_compute. auto. Qed.
+
+(* ---------------- (6') non-vacuity with a DEMANDING node ---------------- *)
+(* sources 0 and 1; 2 = node(1); 3 = ENodeD [0] [2]: depends on 0 and, when 0 fires, demands 2 from inside
+   its update; 4 = node(3); 5 = ENodeD [1] [4] (demands the downstream node 4 when 1 fires).
+   With the queue order [0; 1] node 3 is reached, as a dependent of 0, BEFORE node 2 has been visited: only
+   the demand brings 2 (and, through it, the source 1) up to date in time. *)
+Definition exD_ops : list eop :=
+  [ENode []; ENode []; ENode [1]; ENodeD [0] [2]; ENode [3]; ENodeD [1] [4]].
+Definition GexD : graph nat := run_script false [] exD_ops.
+Definition exD_fs : list (nat * nat) := [(0, 5); (1, 7)].
+
+Example GexD_wf : wf GexD.
+Proof. apply wf_run_script; [reflexivity | apply wf_nil]. Qed.
+
+Example GexD_ranked : ranked GexD.
+Proof.
+  exists (fun n => n). intros n d. unfold pot.
+  do 6 (destruct n as [|n]; [vm_compute; intuition lia|]).
+  rewrite get_default by (vm_compute; lia). intros [].
+Qed.
+
+Example GexD_sources : sources GexD exD_fs.
+Proof.
+  split.
+  - simpl. repeat constructor; simpl; intuition lia.
+  - intros n v H. simpl in H. destruct H as [E|[E|[]]]; injection E as <- <-; vm_compute; split; auto; lia.
+Qed.
+
+Example C03_demand_example_thm :
+  exists lg, estep false GexD (ETxn exD_fs) = (GexD, Some (lg, map (den GexD exD_fs) (seq 0 6))) /\ once_spec GexD exD_fs lg.
+Proof. exact (C03_txn GexD exD_fs GexD_wf GexD_ranked GexD_sources). Qed.
+
+(* ... evaluated: the update log starts with node 2, demanded by node 3 before node 3's own update; in
+   both queue orders the same firings.  When only the source 1 fires, node 3 demands nothing and is not
+   updated; when only 0 fires, node 3 demands 2, which does not fire *)
+Example C03_demand_example_eval :
+  snd (estep false GexD (ETxn exD_fs)) = Some ([2; 3; 4; 5], [Some 5; Some 7; Some 10; Some 32; Some 37; Some 67]) /\
+  snd (estep false GexD (ETxn (rev exD_fs))) = Some ([2; 3; 4; 5], [Some 5; Some 7; Some 10; Some 32; Some 37; Some 67]) /\
+  map (sdemanded GexD exD_fs) (seq 0 6) = [[]; []; []; [2]; []; [4]] /\
+  snd (estep false GexD (ETxn [(1, 7)])) = Some ([2; 5], [None; Some 7; Some 10; None; None; Some 29]) /\
+  snd (estep false GexD (ETxn [(0, 5)])) = Some ([3; 4], [Some 5; None; None; Some 21; Some 26; None]).
+Proof. vm_compute. auto 10. Qed.
 
 (* ---------------- (5) the algorithm as originally found is not glitch free ---------------- *)
 (* On the same well-formed ranked graph and firing list the original algorithm (dependents are walked
@@ -765,7 +1023,17 @@ Example C03_original_refuted_engine :
   option_map (fun r => nth 5 (fst r) None) (final false [1; 0]) = Some (Some 1405).
 Proof. vm_compute. auto. Qed.
 
+(* with demanding nodes the original algorithm also goes wrong: the source 1, entered as a dependency
+   of the demanded node 2 from inside node 3's update, walks its dependents; node 5 then demands node 4
+   while node 3 is still pending, and node 4 is never updated *)
+Example C03_original_refuted_demand :
+  snd (estep true GexD (ETxn exD_fs)) = Some ([5; 2; 3], [Some 5; Some 7; Some 10; Some 32; None; Some 29]) /\
+  den GexD exD_fs 4 = Some 37.
+Proof. vm_compute. auto. Qed.
+
 Print Assumptions C03_example_thm.
 Print Assumptions C03_example_eval.
+Print Assumptions C03_demand_example_thm.
+Print Assumptions C03_demand_example_eval.
 Print Assumptions C03_original_refuted.
 Print Assumptions C03_original_refuted_engine.
